@@ -32,6 +32,17 @@ rt/toast_pixel_for_point/near_nearest_centre
 rt/toast_pixel_for_point/tile            {coordsys, depth, lat, lon, kind, tile, tile_lookup}  (differs from toast_tile_for_point)
 rt/toast_pixel_for_point/lon_periodic    same keys as near_nearest_centre plus k: the call with lon + 2 pi k
 rt/toast_pixel_for_point/raises          {coordsys, depth, lat, lon, kind, error}          (depth 0 is a legal depth)
+Call order (scenario ``order_...``): the per-system jobs above never use both coordinate systems in one process.  Here ONE
+process looks the same point up again and again, alternating between the two coordinate systems, between tile and pixel
+look-up and between lon and lon + pi (in the other system lon + pi falls on the same *position* (n, x, y) of the square,
+whose sky coordinates differ), in both orders.  Every answer must satisfy the oracle of ITS coordinate system whatever was
+asked before, and the same call must give the same answer every time.
+rt/order_toast_tile_for_point/<clause>, rt/order_toast_pixel_for_point/<clause>
+        clauses and keys as above (coordsys, lat, lon = those of the failing call) plus
+        {sequence: [[fn, coordsys, shift]...] (fn 'tile'|'pixel'; the call uses lon0 + shift * pi), lon0, index (the failing
+         call), before: the <= 12 calls [fn, coordsys, depth, lat, lon] made in the process just before the sequence}
+rt/order_toast_tile_for_point/repeatable, rt/order_toast_pixel_for_point/repeatable
+        {coordsys, depth, lat, lon, kind, sequence, lon0, index, first_index, answer, first_answer, before}
 ``kind`` names the family of the point: random | pole | equator | seam | meridian | corner | edge | near_pole.
 Reports are capped at 4 per (obligation, coordsys, family), so that a failure of one family (e.g. one
 coordinate system) cannot hide another.
@@ -43,6 +54,9 @@ quick   : per coordinate system 400 random points (uniform on the sphere) + ~470
           edges of level <= 4, |lat| within 1e-9..0.5 deg of the poles); tile look-up at every depth 0..10 (nesting)
           and one depth in 11..20; periodicity with k in {-1000, -3, -1, 1, 2, 1000}; 200 pixel look-ups
           (depth 0..10) + 30 with shifted longitude.
+          call order: 120 points (one third special) x sequences of 4..8 look-ups (4 fixed alternation patterns + seeded
+          random ones), depth 0..10, in 4 processes.
+thorough: call order: 1500 points, in 12 processes.
 thorough: 12000 random + ~1300 special points (corners to level 4, edges to level 5), depths 0..16 and one in 17..24;
           4000 pixel look-ups + 500 shifted.
 
@@ -83,8 +97,9 @@ def _pos_ok(t, depth):
     return n == depth and 0 <= x < (1 << n) and 0 <= y < (1 << n)
 
 
-def check_tile_point(T, coordsys, pt):
-    """Tile look-ups for one point.  pt: {lat, lon, kind, depths: [...increasing...], ks: [...]}"""
+def check_tile_point(T, coordsys, pt, answer=None):
+    """Tile look-ups for one point.  pt: {lat, lon, kind, depths: [...increasing...], ks: [...]}
+    ``answer`` (a dict) receives the positions found, by depth."""
     out = []
     cs = T.ToastCoordinateSystem(coordsys)
     lat, lon, kind = float(pt["lat"]), float(pt["lon"]), pt.get("kind", "random")
@@ -114,6 +129,8 @@ def check_tile_point(T, coordsys, pt):
                             "tile %r (depth %d) is not inside tile %r returned for depth %d" % (pos, depth, prev, prev[0])))
         prev = pos
         found[depth] = pos
+        if answer is not None:
+            answer[depth] = pos
     # periodicity at the deepest requested depth and at a shallow one
     for k in pt.get("ks", []):
         for depth in sorted(set([pt["depths"][-1], min(3, pt["depths"][-1])])):
@@ -149,8 +166,9 @@ def _model_pixel_centres(coordsys, n, x, y):
     return S.quad_pixel_centres(q, inc, 8)
 
 
-def check_pixel_point(T, coordsys, pt):
-    """Pixel look-up for one point.  pt: {lat, lon, kind, depth, k}; k != 0 calls with lon + 2 pi k."""
+def check_pixel_point(T, coordsys, pt, answer=None):
+    """Pixel look-up for one point.  pt: {lat, lon, kind, depth, k}; k != 0 calls with lon + 2 pi k.
+    ``answer`` (a dict) receives the raw answer under "value"."""
     out = []
     cs = T.ToastCoordinateSystem(coordsys)
     lat, lon, kind, depth = float(pt["lat"]), float(pt["lon"]), pt.get("kind", "random"), int(pt["depth"])
@@ -169,6 +187,8 @@ def check_pixel_point(T, coordsys, pt):
         return out
     pos = [int(tile.pos.n), int(tile.pos.x), int(tile.pos.y)]
     w["tile"] = pos
+    if answer is not None:
+        answer["value"] = [pos, px, py]
     if not _pos_ok(tile, depth):
         out.append(("rt/toast_pixel_for_point/tile", dict(w, tile_lookup=None), "pixel look-up at depth %d returned position %r" % (depth, pos)))
         return out
@@ -233,6 +253,88 @@ def work(coordsys, tile_points, pixel_points):
     for pt in pixel_points:
         add(check_pixel_point(T, coordsys, pt))
     return {"violations": res, "totals": total, "families": fam}
+
+
+# ---------------------------------------------------------------------------------------------
+# call order: both coordinate systems, tile and pixel look-ups, in ONE process
+
+_PATTERNS = (
+    [["pixel", "astronomical", 0], ["pixel", "planetary", 0], ["pixel", "astronomical", 0], ["pixel", "planetary", 0]],
+    [["pixel", "planetary", 0], ["pixel", "astronomical", 0], ["pixel", "planetary", 0], ["pixel", "astronomical", 0]],
+    [["pixel", "astronomical", 0], ["pixel", "planetary", 1], ["tile", "planetary", 1], ["pixel", "astronomical", 0], ["pixel", "planetary", 1]],
+    [["pixel", "planetary", 0], ["pixel", "astronomical", 1], ["tile", "astronomical", 1], ["pixel", "planetary", 0], ["pixel", "astronomical", 1]],
+)
+
+
+def run_sequence(T, pt, before):
+    """pt: {lat, lon, kind, depth, sequence}.  ``before``: list of earlier calls of this process (appended to)."""
+    out = []
+    lat, lon0, kind, depth = float(pt["lat"]), float(pt["lon"]), pt.get("kind", "random"), int(pt["depth"])
+    seq = pt["sequence"]
+    ctxw = {"sequence": seq, "lon0": lon0, "before": [list(b) for b in before[-12:]]}
+    first = {}
+    for idx, (fn, coordsys, shift) in enumerate(seq):
+        lon = lon0 + shift * math.pi
+        ans = {}
+        if fn == "pixel":
+            items = check_pixel_point(T, coordsys, {"lat": lat, "lon": lon, "kind": kind, "depth": depth, "k": 0}, ans)
+            val = ans.get("value")
+        else:
+            items = check_tile_point(T, coordsys, {"lat": lat, "lon": lon, "kind": kind, "depths": [depth], "ks": []}, ans)
+            val = ans.get(depth)
+        before.append([fn, coordsys, depth, lat, lon])
+        for obl, wit, msg in items:
+            out.append((obl.replace("rt/toast_", "rt/order_toast_"), dict(wit, index=idx, **ctxw),
+                        "call %d of %s: %s" % (idx, [s[0][0] + s[1][0].upper() + ("'" if s[2] else "") for s in seq], msg)))
+        key = (fn, coordsys, shift)
+        if val is not None:
+            if key not in first:
+                first[key] = (idx, val)
+            elif first[key][1] != val:
+                out.append(("rt/order_toast_%s_for_point/repeatable" % fn,
+                            dict(ctxw, coordsys=coordsys, depth=depth, lat=lat, lon=lon, kind=kind, index=idx, first_index=first[key][0],
+                                 answer=val, first_answer=first[key][1]),
+                            "calls %d and %d are the same %s look-up (%s, depth %d, lat %.6f, lon %.6f) and answer %r and %r" % (
+                                first[key][0], idx, fn, coordsys, depth, lat, lon, first[key][1], val)))
+    return out
+
+
+def work_order(points):
+    from toasty import toast as T
+    res = []
+    fam = {}
+    total = {}
+    before = []
+    for pt in points:
+        for (obl, wit, msg) in run_sequence(T, pt, before):
+            total[obl] = total.get(obl, 0) + 1
+            f = "|".join(map(str, _family(obl, wit)))
+            fam[f] = fam.get(f, 0) + 1
+            if fam[f] <= CAP:
+                res.append([obl, wit, msg])
+    return {"violations": res, "totals": total, "families": fam}
+
+
+def _build_order(seed, thorough):
+    import random
+    rng = random.Random("c12/order/%s" % seed)       # own generator: the older case streams stay as they were
+    n_pts, dmax = (1500, 12) if thorough else (120, 10)
+    special = [p for p in _special_points("astronomical", rng, 3, 4) if abs(p[0]) <= math.pi / 2 - ONE_DEG]
+    pts = []
+    for i in range(n_pts):
+        if i % 3 == 2:
+            lat, lon, kind = rng.choice(special)
+        else:
+            lat, lon, kind = math.asin(rng.uniform(-1, 1)), rng.uniform(0, S.TWOPI), "random"
+            if abs(lat) > math.pi / 2 - ONE_DEG:
+                lat = 0.9 * lat
+        depth = i % (dmax + 1) if i < 4 * (dmax + 1) else rng.randint(0, dmax)
+        if i % 2 == 0:
+            seq = [list(s) for s in _PATTERNS[(i // 2) % len(_PATTERNS)]]
+        else:
+            seq = [[rng.choice(["pixel", "pixel", "tile"]), rng.choice(list(S.COORDSYS)), rng.choice([0, 0, 1])] for _ in range(rng.randint(4, 8))]
+        pts.append({"lat": lat, "lon": lon, "kind": kind, "depth": depth, "sequence": seq})
+    return pts, dict(n_pts=n_pts, dmax=dmax)
 
 
 # ---------------------------------------------------------------------------------------------
@@ -349,13 +451,25 @@ def run(ctx):
               "with lon + 2 pi k, k in {-2,-1,1,3}; |pixel - nearest-centre pixel| <= 2 (Chebyshev)" % info)
     ctx.assume("rt/c04_sphere.py is a faithful model of the documented TOAST layout; pixel centres = centres of the tiles 8 levels deeper (C05)")
     timeout = 560 if ctx.thorough else 150
+    opts, oinfo = _build_order(ctx.seed, ctx.thorough)
+    n_ojobs = 12 if ctx.thorough else 4
+    ojobs = [opts[c::n_ojobs] for c in range(n_ojobs)]
+    ctx.bound("call order, both coordinate systems in ONE process: %(n_pts)d points >= 1 degree from the poles (one third special points), depth "
+              "0..%(dmax)d; per point a sequence of 4..8 look-ups: 4 fixed alternation patterns (pixel A,P,A,P; P,A,P,A; the same with lon + pi "
+              "in the second system, which hits the same position of the square, and a tile look-up in between) and seeded random sequences over "
+              "{tile, pixel} x {astronomical, planetary} x {lon, lon + pi}; every answer against the oracle of its own system; equal calls must "
+              "give equal answers" % oinfo)
 
     def do(job):
+        if isinstance(job, list):
+            return job, call_isolated("rt.c12", "work_order", {"points": job}, timeout, env=_ONE_THREAD)
         coordsys, tp, pp = job
         return job, call_isolated("rt.c12", "work", {"coordsys": coordsys, "tile_points": tp, "pixel_points": pp}, timeout, env=_ONE_THREAD)
 
-    with ThreadPoolExecutor(max_workers=nworkers) as ex:
-        results = list(ex.map(do, jobs))
+    with ThreadPoolExecutor(max_workers=nworkers + 2) as ex:
+        all_results = list(ex.map(do, jobs + ojobs))
+    results = all_results[:len(jobs)]
+    order_results = all_results[len(jobs):]
     fam_seen = {}
     totals = {}
     sampled = set()
@@ -381,6 +495,23 @@ def run(ctx):
         for obl, k in res["totals"].items():
             key = (obl, coordsys)
             totals[key] = totals.get(key, 0) + k
+    for pts_, (status, res, secs) in order_results:
+        if status == "timeout":
+            ctx.note("call-order job of %d points did not finish in %d s: undecided" % (len(pts_), timeout))
+            continue
+        if status != "ok":
+            raise RuntimeError("C12 call-order worker %s after %.0fs: %r" % (status, secs, res))
+        for pt in pts_:
+            for idx, (fn, cs_, shift) in enumerate(pt["sequence"]):
+                ctx.case(("order", pt["lat"], pt["lon"], pt["depth"], idx, fn, cs_, shift, tuple(map(tuple, pt["sequence"][:idx]))))
+        for (obl, wit, msg) in res["violations"]:
+            f = _family(obl, wit)
+            fam_seen[f] = fam_seen.get(f, 0) + 1
+            if fam_seen[f] <= CAP:
+                ctx.violation(obl, wit, msg)
+        for obl, k in res["totals"].items():
+            key = (obl, "both")
+            totals[key] = totals.get(key, 0) + k
     for (obl, coordsys), k in sorted(totals.items()):
         ctx.note("%s [%s]: %d failing cases met in all; at most %d per (coordsys, branch_mismatch, contained, depth==0) family reported" % (obl, coordsys, k, CAP))
 
@@ -389,6 +520,24 @@ def replay(obligation, witness):
     from toasty import toast as T
     w = witness
     coordsys = w["coordsys"]
+    if w.get("sequence") is not None:
+        # call order: the recorded calls that preceded the sequence in its process, then the sequence itself
+        kinds = {"tile": T.toast_tile_for_point, "pixel": T.toast_pixel_for_point}
+        before = []
+        for fn, cs_, d_, lat_, lon_ in w.get("before") or []:
+            try:
+                kinds[fn](int(d_), float(lat_), float(lon_), coordsys=T.ToastCoordinateSystem(cs_))
+            except Exception:
+                pass
+            before.append([fn, cs_, d_, lat_, lon_])
+        pt = {"lat": w["lat"], "lon": w["lon0"], "kind": w.get("kind", "random"), "depth": w["depth"], "sequence": w["sequence"]}
+        res = run_sequence(T, pt, before)
+        same = [r for r in res if r[0] == obligation and r[1].get("index") == w.get("index")] or [r for r in res if r[0] == obligation]
+        if same:
+            return False, same[0][2]
+        if res:
+            return False, "recorded obligation holds now, but %s: %s" % (res[0][0], res[0][2])
+        return True, "every look-up of the recorded sequence now satisfies the property of its own coordinate system"
     if obligation.startswith("rt/toast_pixel_for_point/"):
         pt = {"lat": w["lat"], "lon": w["lon"], "kind": w.get("kind", "random"), "depth": w["depth"], "k": w.get("k", 0)}
         res = check_pixel_point(T, coordsys, pt)
